@@ -72,20 +72,99 @@ Proof.
     apply (IH fuel s' L rest W HBs HL Hne E2). cbn in Hf. lia.
 Qed.
 
-(* ... or reports end of input with a cleared buffer *)
-Lemma u_fill_eof : forall blanks fuel s, wf_stream s ->
-  Forall blank_line blanks -> concat s = enc_lines blanks -> length blanks < fuel ->
+(* white-space bytes (IoPrint.wf_suffix's set) *)
+Definition wsb (b : N) : bool := in_range 9 13 b || N.eqb b 32.
+(* white-space bytes forming complete lines *)
+Definition wf_blank_prefix (l : list N) : bool :=
+  forallb wsb l && match rev l with [] => true | c :: _ => N.eqb c 10 end.
+
+Lemma wsb_facts : forall b, wsb b = true -> is_white_space b = true /\ is_scalar b = true /\ (b < 128)%N.
+Proof.
+  intros b H. unfold wsb, in_range in H. apply orb_true_iff in H.
+  assert ((9 <= b <= 13)%N \/ b = 32%N) as R.
+  { destruct H as [H|H]; [left; apply andb_true_iff in H; destruct H as [H1 H2]; apply N.leb_le in H1, H2; lia
+                         |right; apply N.eqb_eq in H; exact H]. }
+  repeat split.
+  - unfold is_white_space. destruct H as [H|H]; [unfold in_range; rewrite H; reflexivity|].
+    apply N.eqb_eq in H. subst b. reflexivity.
+  - unfold is_scalar. apply orb_true_iff. left. apply N.ltb_lt. lia.
+  - lia.
+Qed.
+
+(* ... or reports end of input with a cleared buffer; [tail]: a last white-space line without LF *)
+Lemma u_fill_eof : forall blanks fuel s tail, wf_stream s ->
+  Forall blank_line blanks -> forallb wsb tail = true -> ~ In 10%N tail ->
+  concat s = enc_lines blanks ++ tail -> length blanks + (if is_nil tail then 0 else 1) < fuel ->
   u_fill fuel [] s = FEof [] [].
 Proof.
-  induction blanks as [|B blanks IH]; intros fuel s Hwf HB Ec Hf.
-  - destruct fuel as [|fuel]; [cbn in Hf; lia|]. cbn in Ec.
-    apply wf_concat_nil in Ec; [|exact Hwf]. subst s. reflexivity.
+  induction blanks as [|B blanks IH]; intros fuel s tail Hwf HB Ht Hn Ec Hf.
+  - change (enc_lines []) with (@nil N) in Ec. cbn [app] in Ec.
+    destruct tail as [|t0 tl].
+    + destruct fuel as [|fuel]; [cbn in Hf; lia|].
+      apply wf_concat_nil in Ec; [|exact Hwf]. subst s. reflexivity.
+    + destruct fuel as [|[|fuel]]; try (cbn in Hf; lia).
+      assert (~ In 10%N (concat s)) as Hn2 by (rewrite Ec; exact Hn).
+      destruct (read_until_notfound 10 s Hwf Hn2) as [Er Es].
+      assert (forallb (fun c => N.ltb c 128) (t0 :: tl) = true) as Ha.
+      { rewrite forallb_forall in *. intros x Hx. apply N.ltb_lt. exact (proj2 (proj2 (wsb_facts x (Ht x Hx)))). }
+      assert (forallb is_white_space (t0 :: tl) = true) as Hw.
+      { rewrite forallb_forall in *. intros x Hx. exact (proj1 (wsb_facts x (Ht x Hx))). }
+      cbn [u_fill]. unfold read_line. destruct (read_until 10 s) as [r s']. cbn [fst snd] in Er, Es. subst r s'.
+      rewrite Ec. rewrite (utf8_decode_ascii _ Ha). cbn [length app]. rewrite (trim_all_ws _ Hw). reflexivity.
   - destruct fuel as [|fuel]; [cbn in Hf; lia|]. cbn [u_fill].
     inversion HB as [|x l [HBl HBn] HBs]; subst.
-    rewrite enc_lines_cons in Ec.
+    rewrite enc_lines_cons in Ec. rewrite <- app_assoc in Ec.
     destruct (read_line_line s B _ Hwf HBl Ec) as [n [E1 [W E2]]].
     destruct (read_line s) as [o s']. cbn [fst snd] in *. subst o. cbn [app]. rewrite HBn.
-    apply (IH fuel s' W HBs E2). cbn in Hf. lia.
+    apply (IH fuel s' L rest W HBs HL Hne E2). cbn in Hf. lia.
+Qed.
+
+(* white-space bytes (IoPrint.wf_suffix's set) *)
+Definition wsb (b : N) : bool := in_range 9 13 b || N.eqb b 32.
+(* white-space bytes forming complete lines *)
+Definition wf_blank_prefix (l : list N) : bool :=
+  forallb wsb l && match rev l with [] => true | c :: _ => N.eqb c 10 end.
+
+Lemma wsb_facts : forall b, wsb b = true -> is_white_space b = true /\ is_scalar b = true /\ (b < 128)%N.
+Proof.
+  intros b H. unfold wsb, in_range in H. apply orb_true_iff in H.
+  assert ((9 <= b <= 13)%N \/ b = 32%N) as R.
+  { destruct H as [H|H]; [left; apply andb_true_iff in H; destruct H as [H1 H2]; apply N.leb_le in H1, H2; lia
+                         |right; apply N.eqb_eq in H; exact H]. }
+  repeat split.
+  - unfold is_white_space. destruct H as [H|H]; [unfold in_range; rewrite H; reflexivity|].
+    apply N.eqb_eq in H. subst b. reflexivity.
+  - unfold is_scalar. apply orb_true_iff. left. apply N.ltb_lt. lia.
+  - lia.
+Qed.
+
+(* ... or reports end of input with a cleared buffer; [tail]: a last white-space line without LF *)
+Lemma u_fill_eof : forall blanks fuel s tail, wf_stream s ->
+  Forall blank_line blanks -> forallb wsb tail = true -> ~ In 10%N tail ->
+  concat s = enc_lines blanks ++ tail -> length blanks + (if is_nil tail then 0 else 1) < fuel ->
+  u_fill fuel [] s = FEof [] [].
+Proof.
+  induction blanks as [|B blanks IH]; intros fuel s tail Hwf HB Ht Hn Ec Hf.
+  - change (enc_lines []) with (@nil N) in Ec. cbn [app] in Ec.
+    destruct tail as [|t0 tl] eqn:Et.
+    + destruct fuel as [|fuel]; [cbn in Hf; lia|].
+      apply wf_concat_nil in Ec; [|exact Hwf]. subst s. reflexivity.
+    + rewrite <- Et in *. destruct fuel as [|[|fuel]]; try (rewrite Et in Hf; cbn in Hf; lia).
+      assert (~ In 10%N (concat s)) as Hn2 by (rewrite Ec; exact Hn).
+      destruct (read_until_notfound 10 s Hwf Hn2) as [Er Es].
+      assert (forallb (fun c => N.ltb c 128) tail = true) as Ha.
+      { rewrite forallb_forall in *. intros x Hx. apply N.ltb_lt. exact (proj2 (proj2 (wsb_facts x (Ht x Hx)))). }
+      assert (forallb is_white_space tail = true) as Hw.
+      { rewrite forallb_forall in *. intros x Hx. exact (proj1 (wsb_facts x (Ht x Hx))). }
+      cbn [u_fill]. unfold read_line. destruct (read_until 10 s) as [r s']. cbn [fst snd] in Er, Es. subst r s'.
+      rewrite Ec. rewrite (utf8_decode_ascii tail Ha). rewrite Et at 1. cbn [length]. rewrite <- Et.
+      cbn [app]. rewrite (trim_all_ws tail Hw). reflexivity.
+  - destruct fuel as [|fuel]; [cbn in Hf; lia|]. cbn [u_fill].
+    inversion HB as [|x l [HBl HBn] HBs]; subst.
+    rewrite enc_lines_cons in Ec. rewrite <- app_assoc in Ec.
+    destruct (read_line_line s B _ Hwf HBl Ec) as [n [E1 [W E2]]].
+    destruct (read_line s) as [o s']. cbn [fst snd] in *. subst o. cbn [app]. rewrite HBn.
+    apply (IH fuel s' tail W HBs Ht Hn E2). cbn [length] in Hf. lia.
 Qed.
 
 Lemma is_line_nonempty : forall L, is_line L -> 1 <= length (utf8_encode L).
@@ -137,6 +216,14 @@ Section RTU.
     pose proof (enc_lines_length blanks H). lia.
   Qed.
 
+  Lemma fuel_ok_blanks_tail : forall F s blanks x tail, Forall is_line blanks ->
+    concat s = x ++ enc_lines blanks ++ tail -> length (concat s) < F ->
+    length blanks + (if is_nil tail then 0 else 1) < F.
+  Proof.
+    intros F s blanks x tail H E HF. rewrite E in HF. rewrite !app_length in HF.
+    pose proof (enc_lines_length blanks H). destruct tail; cbn [is_nil length] in *; lia.
+  Qed.
+
   Lemma blank_lines_are_lines : forall bs, Forall blank_line bs -> Forall is_line bs.
   Proof. intros bs H. eapply Forall_impl; [|exact H]. intros a [Ha _]. exact Ha. Qed.
 
@@ -171,18 +258,19 @@ Section RTU.
   Qed.
 
   (* ... or by the end of input *)
-  Lemma u_columns_eof : forall F y cols fuel s acc blanks,
+  Lemma u_columns_eof : forall F y cols fuel s acc blanks tail,
     length (concat s) < F ->
     wf_stream s -> Forall (colgood y) cols -> Forall blank_line blanks ->
-    concat s = enc_lines (map (uniprobe_line y) cols) ++ enc_lines blanks ->
+    forallb wsb tail = true -> ~ In 10%N tail ->
+    concat s = enc_lines (map (uniprobe_line y) cols) ++ enc_lines blanks ++ tail ->
     length cols < fuel ->
     u_columns A parse_f32 F fuel [] false s acc = CDone (rev acc ++ parsed_cols A fval cols) [] false [].
   Proof.
-    intros F y. induction cols as [|c cols IH]; intros fuel s acc blanks HF Hwf Hc Hb Ec Hf.
+    intros F y. induction cols as [|c cols IH]; intros fuel s acc blanks tail HF Hwf Hc Hb Ht Hn Ec Hf.
     - destruct fuel as [|fuel]; [cbn in Hf; lia|]. cbn [u_columns]. cbn [map] in Ec.
       change (enc_lines []) with (@nil N) in Ec. cbn [app] in Ec.
-      rewrite (u_fill_eof blanks F s Hwf Hb Ec).
-      2: { apply (fuel_ok_blanks F s blanks [] []); [apply blank_lines_are_lines; exact Hb| |exact HF]. rewrite app_nil_r. exact Ec. }
+      rewrite (u_fill_eof blanks F s tail Hwf Hb Ht Hn Ec).
+      2: { apply (fuel_ok_blanks_tail F s blanks [] tail); [apply blank_lines_are_lines; exact Hb|exact Ec|exact HF]. }
       destruct Hempty as [k Ek]. rewrite Ek. cbn [parsed_cols map]. rewrite app_nil_r. reflexivity.
     - destruct fuel as [|fuel]; [cbn in Hf; lia|]. cbn [u_columns].
       inversion Hc as [|x l [HcL [HcN [[k Ek] [Hs Hw]]]] Hcs]; subst.
@@ -192,7 +280,7 @@ Section RTU.
       assert (length (concat s') < F) as HF2.
       { rewrite Ec in HF. rewrite app_length in HF. rewrite Es. lia. }
       rewrite E. destruct (Hcol y c k [] Ek Hs Hw) as [n En]. rewrite app_nil_r in En. rewrite En.
-      rewrite (IH fuel s' ((k, map fval (snd c)) :: acc) blanks HF2 W Hcs Hb Es) by (cbn in Hf; lia).
+      rewrite (IH fuel s' ((k, map fval (snd c)) :: acc) blanks tail HF2 W Hcs Hb Ht Hn Es) by (cbn in Hf; lia).
       f_equal. cbn [rev]. rewrite <- app_assoc. cbn [app].
       unfold parsed_cols. cbn [map]. rewrite Ek. reflexivity.
   Qed.
@@ -263,6 +351,9 @@ Section RTU.
       unfold wf_ftok in Ht. apply andb_true_iff in Ht. destruct Ht as [Ht _]. rewrite (wf_dec_okl t Ht). reflexivity.
     - cbn [app]. apply trim_nonws_head. exact Hws.
   Qed.
+
+  Lemma Forall_app_intro : forall {T} (P : T -> Prop) a b, Forall P a -> Forall P b -> Forall P (a ++ b).
+  Proof. intros T P a b Ha Hb. apply Forall_app. split; assumption. Qed.
 
   Lemma gap_lines_ok : forall p, Forall blank_line (gap_lines p).
   Proof.
@@ -337,20 +428,22 @@ Section RTU.
   Definition enc_recs (rs : list (style * src)) : list N :=
     concat (map (fun q => utf8_encode (print_uniprobe q)) rs).
 
-  Lemma u_run_records : forall F rs p fuel st s1,
+  Lemma u_run_records : forall F sb tail rs p fuel st s1,
+    Forall blank_line sb -> forallb wsb tail = true -> ~ In 10%N tail ->
     length (concat s1) < F ->
     goodp p -> Forall goodp rs -> filled_of F st = FLine (name_line p) s1 -> wf_stream s1 ->
-    concat s1 = enc_lines (col_lines p) ++ enc_lines (gap_lines p) ++ enc_recs rs ->
+    concat s1 = enc_lines (col_lines p) ++ enc_lines (gap_lines p) ++ enc_recs rs ++ enc_lines sb ++ tail ->
     length rs + 2 <= fuel ->
     u_run A parse_f32 F false fuel true st = map (fun q => Ok (Some (spec_of q))) (p :: rs) ++ [Ok None].
   Proof.
-    intros F. induction rs as [|q rs IH]; intros p fuel st s1 HF G Gs Hf Hwf Ec Hfu.
+    intros F sb tail. intros Hsb Ht Hnt. induction rs as [|q rs IH]; intros p fuel st s1 HF G Gs Hf Hwf Ec Hfu.
     - destruct fuel as [|[|fuel]]; try (cbn in Hfu; lia).
       destruct F as [|F']; [lia|].
       destruct (goodp_inv p G) as [_ [_ [_ [_ [_ [Hc _]]]]]].
-      cbn [enc_recs map concat] in Ec. rewrite app_nil_r in Ec.
-      pose proof (u_columns_eof (S F') (fst p) (scols (snd p)) (S F') s1 [] (gap_lines p) HF Hwf Hc
-                    (gap_lines_ok p) Ec (cols_fuel_ok (S F') p s1 _ G Ec HF)) as Ecol.
+      cbn [enc_recs map concat app] in Ec. rewrite app_assoc in Ec. rewrite <- enc_lines_app in Ec.
+      rewrite <- app_assoc in Ec.
+      pose proof (u_columns_eof (S F') (fst p) (scols (snd p)) (S F') s1 [] (gap_lines p ++ sb) tail HF Hwf Hc
+                    (Forall_app_intro _ _ _ (gap_lines_ok p) Hsb) Ht Hnt Ec (cols_fuel_ok (S F') p s1 _ G Ec HF)) as Ecol.
       cbn [rev app] in Ecol.
       cbn [u_run]. rewrite (u_next_after_columns (S F') p st s1 [] false [] G Hf Ecol). reflexivity.
     - destruct fuel as [|fuel]; [cbn in Hfu; lia|].
@@ -360,7 +453,7 @@ Section RTU.
       destruct (name_line_ok (sid (snd q)) (fst q) Hnq) as [Lq Nq].
       assert (concat s1 = enc_lines (map (uniprobe_line (fst p)) (scols (snd p))) ++ enc_lines (gap_lines p)
                           ++ utf8_encode (name_line q)
-                          ++ (enc_lines (col_lines q) ++ enc_lines (gap_lines q) ++ enc_recs rs)) as Ec2.
+                          ++ (enc_lines (col_lines q) ++ enc_lines (gap_lines q) ++ enc_recs rs ++ enc_lines sb ++ tail)) as Ec2.
       { rewrite Ec. unfold enc_recs. cbn [map concat]. rewrite print_uniprobe_lines.
         rewrite <- !app_assoc. reflexivity. }
       destruct (u_columns_next F (fst p) (scols (snd p)) F s1 [] (gap_lines p) (name_line q) _
@@ -404,24 +497,6 @@ Section RTU.
   Qed.
 
   (* ---------- blank lines before the first record ---------- *)
-
-  Definition wsb (b : N) : bool := in_range 9 13 b || N.eqb b 32.
-  (* white-space bytes forming complete lines *)
-  Definition wf_blank_prefix (l : list N) : bool :=
-    forallb wsb l && match rev l with [] => true | c :: _ => N.eqb c 10 end.
-
-  Lemma wsb_facts : forall b, wsb b = true -> is_white_space b = true /\ is_scalar b = true /\ (b < 128)%N.
-  Proof.
-    intros b H. unfold wsb, in_range in H. apply orb_true_iff in H.
-    assert ((9 <= b <= 13)%N \/ b = 32%N) as R.
-    { destruct H as [H|H]; [left; apply andb_true_iff in H; destruct H as [H1 H2]; apply N.leb_le in H1, H2; lia
-                           |right; apply N.eqb_eq in H; exact H]. }
-    repeat split.
-    - unfold is_white_space. destruct H as [H|H]; [unfold in_range; rewrite H; reflexivity|].
-      apply N.eqb_eq in H. subst b. reflexivity.
-    - unfold is_scalar. apply orb_true_iff. left. apply N.ltb_lt. lia.
-    - lia.
-  Qed.
 
   Lemma ws_lines_aux : forall n l, length l <= n -> forallb wsb l = true ->
     (l = [] \/ exists l', l = l' ++ [10%N]) ->
